@@ -262,7 +262,7 @@ func main() {
 	budget := time.Duration(*budgetS) * time.Second
 	if budget == 0 {
 		if *tier == "thorough" {
-			budget = 25 * time.Minute
+			budget = 15 * time.Minute
 		} else {
 			budget = 4 * time.Minute
 		}
